@@ -2,6 +2,7 @@ package c20
 
 import (
 	"fmt"
+	"hash/fnv"
 	"math/rand"
 	"sort"
 	"strings"
@@ -178,7 +179,11 @@ func FileOf(mc *MergeCase) (string, error) {
 	}
 
 	if n == 0 {
-		return "", nil
+		// nothing comes from the file: there is no file, or a file that defines nothing
+		h := fnv.New32a()
+		h.Write([]byte(mc.ID))
+
+		return []string{"", "", "# nothing defined here\n", "{}\n", "---\n"}[h.Sum32()%5], nil //nolint:mnd
 	}
 
 	for _, bl := range mc.Ballast {
